@@ -631,6 +631,33 @@ fn gen_vsign(ctx: &mut Ctx) {
         let res = ctx.case(line, true, "many-pages-then-flip");
         ctx.monitor(!res.contains("PANIC"), "C12-no-panic", &format!("VSL 3 M <{} one-chunk pages, then show / load next twice>", npages), &res[..res.len().min(200)]);
     }
+    // page lists that begin with page number 0xFF (and 0xFE, 0xFF, 0x00), through the flip cycle
+    for ids in [vec![0xFFu8], vec![0xFF, 0x00], vec![0xFE, 0xFF, 0x00], vec![0xFF, 0xFF]] {
+        let mut msgs = vec!["RO.3.RCF".to_string(), format!("SD.0.{}", config_blocks()[2].0), "DC.1".to_string(), "RO.3.RPX".to_string()];
+        for id in &ids {
+            msgs.push(format!("SD.0.{}", hex_of_bytes(&[*id, 0x10, 0, 0, 1, 2, 3, 4, 5, 6, 7, 8, 0xFF, 0xFF, 0xFF, 0xFF])));
+        }
+        msgs.push(format!("DC.{}", ids.len()));
+        for m in ["QS.3", "PC.3", "QS.3", "RO.3.SLP", "QS.3", "QS.3", "RO.3.LNP", "QS.3", "QS.3", "RO.3.SLP", "QS.3", "QS.3", "RO.3.LNP", "QS.3", "QS.3", "RO.3.SLP", "QS.3", "QS.3", "RO.3.LNP", "QS.3"] {
+            msgs.push(m.to_string());
+        }
+        let line = format!("VSL 3 M {}", msgs.join(" "));
+        let res = ctx.case(line.clone(), true, "page-number-ff-then-flip");
+        ctx.monitor(!res.contains("PANIC"), "C12-no-panic", &line, &res[..res.len().min(200)]);
+    }
+    // one unbroken, strictly in-order stream of chunks from offset 0 until offset + length passes 65 535 (258 chunks of 255
+    // bytes; 4 097 chunks of 16 bytes), then the count
+    for (clen, n) in [(255usize, 258usize), (16, 4097)] {
+        let mut msgs = vec!["RO.3.RCF".to_string(), format!("SD.0.{}", config_blocks()[0].0), "DC.1".to_string(), "RO.3.RPX".to_string()];
+        for i in 0..n {
+            msgs.push(format!("SD.{}.{}", (i * clen).min(65535), chunk(clen, i)));
+        }
+        msgs.push(format!("DC.{}", n));
+        msgs.push("QS.3".to_string());
+        let line = format!("VSL 3 M {}", msgs.join(" "));
+        let res = ctx.case(line, true, "in-order-stream-past-65535");
+        ctx.monitor(!res.contains("PANIC"), "C12-no-panic", &format!("VSL 3 M <{} in-order chunks of {} bytes from offset 0>", n, clen), &res[..res.len().min(200)]);
+    }
     // custom geometries taller than two bytes per column, with pages of several chunks: a correct, correctly counted
     // transfer is stored whatever the shape
     for (fam, w, h) in [(4u8, 32u32, 24u32), (4, 60, 40), (8, 32, 24), (8, 100, 20), (4, 8, 17), (8, 16, 33), (4, 120, 64), (8, 160, 24)] {
